@@ -462,6 +462,114 @@ func genStitch(r *repo, o *out) {
 	o.def("asmRollbackSites", "List (String × Bool)", "["+strings.Join(sites, ", ")+"]", "error returns of the placement loop of Assembler.Run: (which step failed, is hk.Teardown() called before returning)")
 }
 
+// ---- C10 / C11: placer dispatch and mount flags ----
+func genPlacers(r *repo, o *out) {
+	// overlay placer: which placer handles which source type when writable
+	var rows []string
+	var roShortcut string
+	for _, f := range r.pkgs["stitch/placer"] {
+		for _, d := range f.Decls {
+			fd, ok := d.(*ast.FuncDecl)
+			if !ok || fd.Name.Name != "NewOverlayPlacer" {
+				continue
+			}
+			ast.Inspect(fd, func(n ast.Node) bool {
+				switch x := n.(type) {
+				case *ast.IfStmt:
+					if strings.Contains(r.src(x.Cond), "writable == false") || strings.Contains(r.src(x.Cond), "!writable") {
+						roShortcut = firstLine(r.src(x.Body))
+					}
+				case *ast.SwitchStmt:
+					if !strings.Contains(r.src(x.Tag), "srcStat.Type") {
+						return true
+					}
+					for _, st := range x.Body.List {
+						cc := st.(*ast.CaseClause)
+						var kinds []string
+						for _, e := range cc.List {
+							kinds = append(kinds, r.src(e))
+						}
+						action := "continue"
+						for _, b := range cc.Body {
+							if rs, ok := b.(*ast.ReturnStmt); ok && len(rs.Results) > 0 {
+								if ce, ok := rs.Results[0].(*ast.CallExpr); ok {
+									action = r.src(ce.Fun)
+								}
+							}
+							if es, ok := b.(*ast.ExprStmt); ok {
+								if ce, ok := es.X.(*ast.CallExpr); ok && r.src(ce.Fun) == "panic" {
+									action = "panic"
+								}
+							}
+						}
+						if len(kinds) == 0 {
+							kinds = []string{"default"}
+						}
+						rows = append(rows, fmt.Sprintf("(%s, %s)", leanStrList(kinds), leanStr(action)))
+					}
+					return false
+				}
+				return true
+			})
+		}
+	}
+	o.def("overlayDispatch", "List (List String × String)", "["+strings.Join(rows, ", ")+"]", "NewOverlayPlacer, writable=true: source type cases and the placer that handles them (continue = the overlay mount itself)")
+	o.def("overlayReadonlyShortcut", "String", leanStr(roShortcut), "what NewOverlayPlacer does when writable == false")
+	// bind placer: mount flag expressions
+	bp := r.funcDecl("stitch/placer", "", "BindPlacer")
+	var flags []string
+	ast.Inspect(bp, func(n ast.Node) bool {
+		if as, ok := n.(*ast.AssignStmt); ok && len(as.Lhs) == 1 && r.src(as.Lhs[0]) == "flags" {
+			flags = append(flags, as.Tok.String()+" "+r.src(as.Rhs[0]))
+		}
+		return true
+	})
+	o.def("bindFlags", "List String", leanStrList(flags), "assignments to `flags` in BindPlacer (the second one is guarded by !writable)")
+	// overlay mount option string
+	var opt string
+	for _, f := range r.pkgs["stitch/placer"] {
+		ast.Inspect(f, func(n ast.Node) bool {
+			if bl, ok := n.(*ast.BasicLit); ok && strings.Contains(bl.Value, "lowerdir=") {
+				opt = strings.Trim(bl.Value, "\"")
+			}
+			return true
+		})
+	}
+	o.def("overlayOptions", "String", leanStr(opt), "the overlay mount option format string")
+	// cache.place: mode -> placer
+	pl := r.funcDecl("transmat/mixins/cache", "cache", "place")
+	var prow []string
+	ast.Inspect(pl, func(n ast.Node) bool {
+		cc, ok := n.(*ast.CaseClause)
+		if !ok {
+			return true
+		}
+		var ks []string
+		for _, e := range cc.List {
+			ks = append(ks, r.src(e))
+		}
+		act := "return nil"
+		body := ""
+		for _, b := range cc.Body {
+			body += r.src(b) + "\n"
+		}
+		switch {
+		case strings.Contains(body, "CopyPlacer("):
+			act = "CopyPlacer"
+		case strings.Contains(body, "GetMountPlacer("):
+			act = "GetMountPlacer"
+		case strings.Contains(body, "panic("):
+			act = "panic"
+		}
+		if len(ks) == 0 {
+			ks = []string{"default"}
+		}
+		prow = append(prow, fmt.Sprintf("(%s, %s)", leanStrList(ks), leanStr(act)))
+		return true
+	})
+	o.def("cachePlaceSwitch", "List (List String × String)", "["+strings.Join(prow, ", ")+"]", "cache.place: placement mode -> what places the shelf at the destination")
+}
+
 // ---- C03: the hash comparison guards success / Commit ----
 func genWrapCompare(r *repo, o *out) {
 	w := r.funcDecl("transmat/util", "", "wrapUnpacker")
